@@ -495,3 +495,19 @@ def check(ctx, run):  # noqa: F811
         exhaustive_histories_rule(ctx, run, "C16.R7x", 2)
     from ..registry import hedger_histories_rule
     hedger_histories_rule(ctx, run, "C16.R8")
+    # R3m: the built-in model modules keep nothing between calls (a memoised output is served to the next derivative, in the first one's dtype,
+    # and handed out again after the caller has modified it)
+    from ..purity import builtin_model_runs, stores
+    n_m = 0
+    for short, fwd, _inp, res in builtin_model_runs(ctx):
+        if not res:
+            continue
+        n_m += 1
+        st = stores(res)
+        run.oblige("C16.R3m", f"{short}.forward keeps no state on the module", not st, "; ".join(st))
+        if st:
+            run.fail(Finding("C16.R3m", fwd.qualname, f"{short}.forward: " + "; ".join(st)[:260], "what one call leaves on the model is read by the next call: the hedge depends on what the hedger was used with before",
+                             file=str(ctx.prog.modules[fwd.module].path), line=fwd.node.lineno))
+    run.require("C16.R3m", 5)
+    if n_m < 5:
+        raise AnalysisError(f"only {n_m} built-in model forwards could be interpreted")
